@@ -597,6 +597,19 @@ def c06(pid, tier, seed, t0):
         alive = copyd(alive)
         dfile = save_decls("C06d", alive)
         legs.append(trace_leg(pid, tier, seed, "derive(Default)+default", alive, dfile, "base", 1, crate="rt-c06d"))
+    # the same declarations inside a #![no_std] library: ZERO/DEFAULT/Default/new must not need anything outside core
+    nd = [d for d in copyd(base) if d["def"]][:: q(tier, 4, 1)]
+    vlib.vary_names(nd)
+    nfile = verdicts.save("C06n", nd)
+    nunits = [verdicts.decl_unit(d, doc=True) for d in nd]
+    verdicts.batch_build("v-c06n", nunits, "dev", lib=True, header=["#![allow(unused, dead_code, deprecated)]"],
+                         crate_attrs=["#![no_std]", "//! C06 base declarations with defaults in a no_std crate"])
+    nev = [{"ev": "regime", "decl": d["id"], "regime": "no_std", "compiles": bool(u.compiles), "source": "\n".join(rustgen.decl_source(d, doc=True)),
+            "diagnostic": (u.diag or {}).get("rendered", "")} for d, u in zip(nd, nunits)]
+    nstates, known = verdicts.validate_events(pid, "v-c06n", nev, nfile, nd, lambda ev: "no_std:u%d:%s" % (nd[ev["decl"]]["n"], "compiles" if ev["compiles"] else "fails"))
+    for line in known:
+        print(line)
+    mc.append({"config": "regime events: base declarations with defaults compile in a #![no_std] crate", "distinct": nstates, "generated": len(nev), "wall_s": 0})
     finish(pid, tier, seed, t0, mc, legs,
            "all 128 base widths without default, all with a default (literal / named constant, `=` / legacy `:`; default bits no "
            "field covers; top-bit and all-ones defaults): new_with_raw_value->raw_value for 0, ones, alternating, every walking 1/0, "
